@@ -8,7 +8,7 @@ evidence directories, and must exit 1 with a VIOLATION line; the copy is removed
   ./check drill NAME...    run the named drills
   ./check drill --list
 """
-import json, os, shutil, subprocess, sys, tempfile, time
+import json, os, re, shutil, subprocess, sys, tempfile, time
 
 VERIF = os.path.dirname(os.path.dirname(os.path.abspath(__file__)))
 REPO = os.environ.get("VERIF_REPO", "/repo")
@@ -86,12 +86,16 @@ def run_neutral(argv):
             items.append({"name": name, "properties": m["properties"], "patch": os.path.join("neutral", name, "patch.diff"),
                           "what": m.get("what", ""), "scale": m.get("scale", 0.5)})
     names = [a for a in argv if not a.startswith("--")]
+    props = [a for a in names if re.fullmatch(r"C\d+", a)]  # `./check drill --neutral C15`: only that property
+    names = [a for a in names if a not in props]
     bad = 0
     total = 0
     for d in items:
         if names and d["name"] not in names:
             continue
         for prop in d["properties"]:
+            if props and prop not in props:
+                continue
             dd = dict(d)
             dd["property"] = prop
             status, info = run_one(dd)
